@@ -7,9 +7,10 @@
    [is_orth d Q]: the columns of the d x d block of Q are orthonormal.  For a list of pairs (KabschLists.v):
    [p_src pairs n i] / [p_tgt pairs n i] = coordinate i of the n-th source / target, [Sc ps pairs] / [Tc ps pairs] = the same
    minus the model's means, [fcost d pairs R t] = sum_n sum_{i<d} (sum_j R i j s_n j + t i - t_n i)^2 (cost of the rigid
-   motion (R, t) on the listed pairs themselves), [rank_ge_dm1 d N S] = some S_n <> 0 (d = 2) / some S_n x S_m <> 0 (d = 3). *)
+   motion (R, t) on the listed pairs themselves), [scale_pairs c pairs] = every coordinate of every point times c
+   (PreconditionedPointSet(points, c) on both sets), [rank_ge_dm1 d N S] = some S_n <> 0 (d = 2) / some S_n x S_m <> 0 (d = 3). *)
 From Coq Require Import Reals List Arith Lia Lra Bool Permutation.
-From Romea Require Import Num NumR LinAlgBModel LinAlgBProofs LsProofs KabschModel KabschProofs KabschProper KabschLists KabschExamples.
+From Romea Require Import Num NumR LinAlgBModel LinAlgBProofs LsProofs KabschModel KabschProofs KabschProper KabschLists KabschPrecond KabschExamples.
 Import ListNotations.
 Local Open Scope R_scope.
 
@@ -267,6 +268,51 @@ Theorem C04_kabsch_model_rotation_is_V_diag_e_Ut :
 Proof. exact (fun svd d cov fixed Hc => rotation_cases svd d cov Hc fixed). Qed.
 Print Assumptions C04_kabsch_model_rotation_is_V_diag_e_Ut.
 
+(* the four [find] overloads: without preconditioning they are [estimate_pairs] on the aligned / listed pairs; with the same
+   scale c on both sets they are [estimate_pairs] on the scaled pairs followed by the division of the translation by c *)
+Theorem C04_kabsch_find_overloads_reduce_to_estimate_pairs :
+  forall svd_of fixed d ps c (src tgt : list (list R)),
+  (length src = length tgt ->
+     find_aligned ROps svd_of fixed d ps src tgt = Some (estimate_pairs ROps svd_of fixed d ps (combine src tgt)) /\
+     find_aligned_pre ROps svd_of fixed d ps c c src tgt
+     = Some (unscale_translation ROps d (estimate_pairs ROps svd_of fixed d ps (scale_pairs c (combine src tgt))) (precond_matrix00 ROps c))) /\
+  (forall corr prs, pairs_of_corr src tgt corr = Some prs ->
+     find_corr ROps svd_of fixed d ps src tgt corr = Some (estimate_pairs ROps svd_of fixed d ps prs) /\
+     find_corr_pre ROps svd_of fixed d ps c c src tgt corr
+     = Some (unscale_translation ROps d (estimate_pairs ROps svd_of fixed d ps (scale_pairs c prs)) (precond_matrix00 ROps c))).
+Proof.
+  exact (fun svd fixed d ps c src tgt =>
+    conj (fun Hl => conj (find_aligned_eq svd fixed d ps src tgt Hl) (find_aligned_pre_eq svd fixed d ps c src tgt Hl))
+         (fun corr prs Hp => conj (find_corr_eq svd fixed d ps src tgt corr prs Hp) (find_corr_pre_eq svd fixed d ps c src tgt corr prs Hp))).
+Qed.
+Print Assumptions C04_kabsch_find_overloads_reduce_to_estimate_pairs.
+
+(* isotropic preconditioning (scale c <> 0 on both sets): the matrix the preconditioned overloads return is a proper rigid
+   motion, least-squares optimal on the ORIGINAL pairs among all proper rigid motions, and on exact data of rank >= d-1 it is
+   (R0, tau0) — by [C04_kabsch_estimate_exact_recovery] the same matrix as without preconditioning.  The SVD contract is
+   assumed for the matrix actually handed to the oracle (the cross covariance of the scaled pairs). *)
+Theorem C04_kabsch_preconditioned_estimate_optimal_and_exact :
+  forall svd_of d ps (pairs : list (list R * list R)) c,
+  (d = 2 \/ d = 3)%nat -> (d <= ps)%nat -> pairs <> [] -> c <> 0 ->
+  let sp := scale_pairs c pairs in
+  let cov := cross_cov ROps d sp (mean_of ROps ps (map fst sp)) (mean_of ROps ps (map snd sp)) in
+  svd_contract d cov (svd_of d cov) ->
+  let H := unscale_translation ROps d (estimate_pairs ROps svd_of true d ps sp) (precond_matrix00 ROps c) in
+  (is_orth d (mget ROps H) /\ fdet ROps d (mget ROps H) = 1) /\
+  (forall Q tau, is_orth d Q -> fdet ROps d Q = 1 ->
+     fcost d pairs (mget ROps H) (fun i => mget ROps H i d) <= fcost d pairs Q tau) /\
+  (forall R0 tau0, is_orth d R0 -> fdet ROps d R0 = 1 -> rank_ge_dm1 d (length pairs) (Sc ps pairs) ->
+     (forall n i, (n < length pairs)%nat -> (i < d)%nat ->
+        p_tgt pairs n i = Rsum d (fun j => R0 i j * p_src pairs n j) + tau0 i) ->
+     (forall i j, (i < d)%nat -> (j < d)%nat -> mget ROps H i j = R0 i j) /\ (forall i, (i < d)%nat -> mget ROps H i d = tau0 i)).
+Proof.
+  exact (fun svd d ps pairs c Hd Hps Hne Hc0 Hc =>
+    conj (precond_estimate_is_proper_rotation svd d ps pairs c Hd Hc)
+   (conj (precond_estimate_optimal svd d ps pairs c Hd Hps Hne Hc0 Hc)
+         (precond_estimate_exact_recovery svd d ps pairs c Hd Hps Hne Hc0 Hc))).
+Qed.
+Print Assumptions C04_kabsch_preconditioned_estimate_optimal_and_exact.
+
 (* translation column: R s + (tm - R sm) = R (s - sm) + tm *)
 Theorem C04_kabsch_translation : forall d (Rm : nat -> nat -> R) (s sm tm : nat -> R) i,
   Rsum d (fun j => Rm i j * s j) + (tm i - Rsum d (fun j => Rm i j * sm j)) = Rsum d (fun j => Rm i j * (s j - sm j)) + tm i.
@@ -312,3 +358,10 @@ Example C04_exact_2d_satisfiable :
   (forall n i, (n < length ex2_pairs)%nat -> (i < 2)%nat ->
      p_tgt ex2_pairs n i = Rsum 2 (fun j => ex2_R0 i j * p_src ex2_pairs n j) + 0).
 Proof. exact (conj ex2_R0_proper (conj ex2_rank ex2_exact)). Qed.
+
+(* preconditioning: the square scaled by 2 on both sets, an SVD of ITS cross covariance within the contract; the sets are
+   aligned lists, so [find_aligned_pre] is covered *)
+Example C04_preconditioned_satisfiable :
+  svd_contract 3 sq2_cov (sq2_svd 3 sq2_cov) /\ 2 <> 0 /\
+  (length (map fst sq_pairs) = length (map snd sq_pairs) /\ combine (map fst sq_pairs) (map snd sq_pairs) = sq_pairs).
+Proof. exact (conj sq2_contract (conj (not_eq_sym (Rlt_not_eq 0 2 Rlt_0_2)) sq_is_aligned)). Qed.
